@@ -2,7 +2,7 @@
    Models: Enc/Payload.v (byte-level signing encodings), Enc/Merkle.v (Tree / BatchTree over an abstract collision-free
    hash), Enc/Cbor.v (cbor-gen item headers); tied to the code by byte-for-byte / digest-for-digest correspondence. *)
 From Coq Require Import ZArith List Bool.
-From F3 Require Import Payload PayloadProofs Merkle MerkleProofs Cbor CborProofs.
+From F3 Require Import Payload PayloadProofs Merkle MerkleProofs Cbor CborProofs Codec CodecProofs CidModel SchemasGen.
 Import ListNotations.
 
 (* the signed bytes determine every field (same network; and across networks when CIDs have equal length) *)
@@ -48,6 +48,58 @@ Theorem C14_cbor_header_roundtrip : forall mt n rest,
   (0 <= mt < 8 -> 0 <= n < 2 ^ 64 -> decode_header (encode_header mt n ++ rest) = Some (mt, n, rest))%Z.
 Proof. exact header_roundtrip. Qed.
 Print Assumptions C14_cbor_header_roundtrip.
+
+(* ---- the generated codecs (Enc/Codec.v over the schemas REGENERATED from /repo's cbor_gen.go files, Gen/SchemasGen.v) ----
+   for EVERY schema built from the cbor-gen templates and every value within the limits of the Go types (wfv):
+   what is written is read back whatever follows; no strict prefix of an encoding decodes (torn / truncated input is an
+   error); encoding is injective; and on EVERY input -- valid or hostile -- each allocation the reader requests is
+   below the largest limit of the schema (the length guard precedes the allocation). *)
+Theorem C14_codec_roundtrip : forall cid_ok s v, wf_schema s -> wfv cid_ok s v ->
+  exists b, encode cid_ok s v = Some b /\ forall rest, fst (decode cid_ok s (b ++ rest)) = Some (v, rest).
+Proof. exact codec_roundtrip. Qed.
+Print Assumptions C14_codec_roundtrip.
+Theorem C14_codec_truncated_is_error : forall cid_ok s v b p q, wf_schema s -> wfv cid_ok s v -> encode cid_ok s v = Some b ->
+  q <> [] -> b = p ++ q -> fst (decode cid_ok s p) = None.
+Proof. exact codec_truncated. Qed.
+Print Assumptions C14_codec_truncated_is_error.
+Theorem C14_codec_encoding_injective : forall cid_ok s v1 v2 b, wf_schema s -> wfv cid_ok s v1 -> wfv cid_ok s v2 ->
+  encode cid_ok s v1 = Some b -> encode cid_ok s v2 = Some b -> v1 = v2.
+Proof. exact codec_encode_inj. Qed.
+Print Assumptions C14_codec_encoding_injective.
+Theorem C14_codec_alloc_bounded : forall cid_ok s bs, Forall (fun a => a <= alloc_limit s)%Z (snd (decode cid_ok s bs)).
+Proof. exact codec_alloc_bounded. Qed.
+Print Assumptions C14_codec_alloc_bounded.
+(* the schemas extracted from the current source satisfy the hypothesis of these theorems, and no reader of a wire or
+   storage type ever requests more than 2 MiB at once (the signature limit of a finality certificate) *)
+Theorem C14_generated_schemas_wf : Forall wf_schema all_schemas.
+Proof.
+  apply Forall_forall. intros s Hs. apply wf_schemab_sound.
+  assert (A : forallb wf_schemab all_schemas = true) by (vm_compute; reflexivity).
+  exact (proj1 (forallb_forall _ _) A s Hs).
+Qed.
+Print Assumptions C14_generated_schemas_wf.
+Theorem C14_generated_alloc_limits : Forall (fun s => alloc_limit s <= 2097152)%Z all_schemas.
+Proof.
+  apply Forall_forall. intros s Hs. apply Z.leb_le.
+  assert (A : forallb (fun s => alloc_limit s <=? 2097152)%Z all_schemas = true) by (vm_compute; reflexivity).
+  exact (proj1 (forallb_forall _ _) A s Hs).
+Qed.
+Print Assumptions C14_generated_alloc_limits.
+
+Example C14_codec_nonvacuous :
+  let cidb := [1;113;160;228;2;32;1;2;3;4;5;6;7;8;9;10;11;12;13;14;15;16;17;18;19;20;21;22;23;24;25;26;27;28;29;30;31;32]%Z in
+  let supp := VList [VBytes (repeat 7%Z 32); VBytes cidb] in
+  let ts := VList [VZ (-5); VBytes [1;2;3]%Z; VBytes cidb; VBytes (repeat 9%Z 32)] in
+  let vote := VList [VZ 3; VZ 1; VZ 2; supp; VList [ts; ts]] in
+  let just := VList [vote; VBytes [4; 1]%Z; VBytes (repeat 1%Z 96)] in
+  let msg := VList [VZ 7; vote; VBytes (repeat 2%Z 96); VBytes []; VSome just] in
+  wfv cid_cast_ok s_GMessage msg /\
+  match encode cid_cast_ok s_GMessage msg with
+  | Some b => fst (decode cid_cast_ok s_GMessage (b ++ [255]%Z)) = Some (msg, [255]%Z) /\
+              fst (decode cid_cast_ok s_GMessage (firstn 100 b)) = None /\ length b = 701%nat
+  | None => False
+  end.
+Proof. vm_compute. repeat split; try discriminate; try (intros; discriminate). Qed.
 
 Example C14_nonvacuous :
   tree [10; 20; 30]%Z = DN (DN (DL 10%Z) (DL 20%Z)) (DN (DL 30%Z) DZ) /\
